@@ -15,7 +15,8 @@ SPEC = {
         ('K-update', 'update', '^(inv:|update:slot-complete\\[(obs|obs_ne|length|prev)\\])'),
         ('K-upsert(filing)', 'upsert', '^upsert:'),
         ('K-prune(frame)', 'prune', 'prune:(delayed-frame|scores-and-stop|loop-.*untouched)'),
-        ("non-emitting search files candidates under their own key in (column, depth)", 'ne_inner', r'^(file:|ne-inner:(layer|nothing|only-live))')],
+        ("non-emitting search files candidates under their own key in (column, depth)", 'ne_inner', r'^(file:|ne-inner:(layer|nothing|only-live))'),
+        ("_match_non_emitting_states_end(the emitting layer of the next column is written ONLY through upsert: an entry that successors point to is improved in place, never swapped for another object)", 'ne_end', r'^ne-end:(next-column-written|at-most-one-upsert|upsert-into)')],
     'bounded': [
         ('well-formed-after-histories', suites.case_C09, 1500, 200000, RULE + '; ' + 'non-trivial = history of >= 2 operations (match, extend, widen, continue_with_distance after an early stop)', 'histories <= 4 operations')],
 }
